@@ -621,7 +621,10 @@ fn run_case(case: &J) -> J {
         let inflight_before = net.inflight.len();
         net.apply(p, &out);
         // next_peer_pks comes out of a hash set: its order differs between processes; the schedule must not depend on it
-        net.inflight[inflight_before..].sort_by_key(|m| m.to);
+        // (replays written for the `exec` driver -- no "stream_fold_sites" field -- keep the order they were recorded with)
+        if !case["stream_fold_sites"].is_null() {
+            net.inflight[inflight_before..].sort_by_key(|m| m.to);
+        }
         let rec = StepRecord { step: net.step, peer: p, input, out };
         net.step += 1;
         let o = &rec.out;
